@@ -168,6 +168,21 @@ def module(draw, uid="U"):
     if d.irange(0, 1):
         t1, t2 = d.pick(CTYPES[:6]), d.pick(CTYPES[:6])
         lines.append("cdef (%s, %s) %s(%s a, %s b):\n    return (a, b)\n" % (t1, t2, d.fresh("ct"), t1, t2))
+    if d.irange(0, 2) == 0:
+        # parallel sections: the private()/reduction() clauses list the temporaries of the block
+        lines.append("from cython.parallel cimport prange, parallel")
+        fn = d.fresh("par")
+        lines.append("cdef double %s_h(double x, int k) noexcept nogil:\n    return x * k + 1.0\n" % fn)
+        lines.append("cdef long %s_g(long x) noexcept nogil:\n    return x * 3 + 1\n" % fn)
+        lines.append("def %s(int n, double w):" % fn)
+        lines.append("    cdef int i, j = 0")
+        lines.append("    cdef double s = 0")
+        lines.append("    cdef long t = 0")
+        lines.append("    for i in prange(n, nogil=True%s):" % d.pick(["", ", schedule='static'", ", num_threads=2"]))
+        lines.append("        s += %s_h(w + i, i) * %s_h(w, i + %d) + <double>%s_g(i) / (%s_g(i + 2) + %d)" % (fn, fn, d.irange(1, 9), fn, fn, d.irange(1, 9)))
+        lines.append("        t += %s_g(i) %% 7 + %s_g(%s_g(i)) // (i + 1)" % (fn, fn, fn))
+        lines.append("        j = i * 2 + <int>%s_g(i)" % fn)
+        lines.append("    return s, t, j\n")
     classes = []
     nclasses = d.irange(0, 4)
     nfuncs = d.irange(2, 7)
